@@ -243,7 +243,7 @@ Proof.
   exists l. split; [assumption|]. split; [assumption|].
   assert (Hall : forall od, In od (with_default (visible_opts dl ctx)) -> cmd_safe od = true).
   { intros od. apply forallb_forall. exact Hsafe. }
-  unfold parse_cmd. rewrite Ed.
+  unfold parse_cmd, parse_cmd_os. rewrite Ed.
   rewrite (tokens_render n bods (S (length (render bods)))); [|assumption| |lia].
   - replace (map (fun x => mention (snd x)) bods) with (map (fun x : nat * (vopt * str) => mention (snd x)) l).
     + rewrite (parse_mentions (all_opts ctx) (keys_from 0 (all_opts ctx)) eq_refl Hnd l []); [reflexivity | assumption|].
